@@ -10,7 +10,7 @@
 #include "vx.h"
 
 typedef struct { int fam; int r, c; uint64_t bits; int b, J, dens, aux; } rk_spec;
-enum { F_TINY, F_LIFT, F_ECH, F_RK, F_BND, F_REC, F_HYB };
+enum { F_TINY, F_LIFT, F_ECH, F_RK, F_BND, F_REC, F_HYB, F_RECW };
 
 static const char *rk_str(const rk_spec *s, char *buf, size_t n) {
   switch (s->fam) {
@@ -20,6 +20,7 @@ static const char *rk_str(const rk_spec *s, char *buf, size_t n) {
   case F_RK: snprintf(buf, n, "RK(%dx%d,rank=%d)", s->r, s->c, s->aux); break;
   case F_BND: snprintf(buf, n, "BND(%dx%d,pat=%d)", s->r, s->c, s->aux); break;
   case F_HYB: snprintf(buf, n, "HYB(sparse=%d,dense=%dx%d,dens=%d,gap=%d)", s->aux, s->r - s->aux, s->c - s->aux, s->dens, s->b); break;
+  case F_RECW: snprintf(buf, n, "RECW(%dx%d,variant=%d)", s->r, s->c, s->dens); break;
   case F_REC: snprintf(buf, n, "REC(%dx%d,n1=%d,r1=%d,r2=%d,place=%d)", s->r, s->c, s->aux, s->b, s->J, s->dens); break;
   }
   return buf;
@@ -73,6 +74,20 @@ static pm *rk_build(const rk_spec *s) {
     pm *X = pm_pat(r, c - sp, (pat){P_PR, s->dens, 71});
     for (int i = 0; i < r; i++) for (int j = sp; j < c; j++) pm_set(A, i, j, pm_get(X, i, j - sp));
     pm_free(X);
+    return A; }
+  case F_RECW: {
+    /* WIDE matrices above the recursion threshold (few rows, very many columns): the recursion splits the columns, so the left
+       half can have full ROW rank (r1 == nrows: nothing left for the second call), be zero, or have low rank at several
+       nested levels.  variant 0 dense; 1 left half zero; 2 left three quarters zero; 3 rank <= 2 (two distinct rows);
+       4 only the left quarter non-zero; 5 left half of rank ceil(nr/2) (duplicated rows), right half dense; 6 dense with zero
+       column stripes of 37 */
+    int nr = s->r, nc = s->c, v = s->dens;
+    pm *A = pm_pat(nr, nc, (pat){P_PR, 0, 81 + v});
+    if (v == 1 || v == 2) { int z = v == 1 ? nc / 2 : (3 * nc) / 4; for (int i = 0; i < nr; i++) for (int j = 0; j < z; j++) pm_set(A, i, j, 0); }
+    if (v == 3) for (int i = 2; i < nr; i++) memcpy(A->d + (size_t)i * A->w, A->d + (size_t)(i & 1) * A->w, (size_t)A->w * 8);
+    if (v == 4) for (int i = 0; i < nr; i++) for (int j = nc / 4; j < nc; j++) pm_set(A, i, j, 0);
+    if (v == 5) { int h = (nr + 1) / 2; for (int i = h; i < nr; i++) for (int j = 0; j < nc / 2; j++) pm_set(A, i, j, pm_get(A, i - h, j)); }
+    if (v == 6) for (int j = 0; j < nc; j++) if ((j / 37) % 2) for (int i = 0; i < nr; i++) pm_set(A, i, j, 0);
     return A; }
   case F_REC: {
     /* left column half [0,n1) holds r1 independent columns, right half r2 more (unit lower-triangular staircase: leading ones
@@ -157,6 +172,15 @@ static void rk_enumerate(int fams, int tiny_n, int lift_n, rk_cb cb, void *u) {
         if (!vx_tier && ((a * 7 + b + place) % 2) && !(r1 % 64 == 0 && r2 >= 128)) continue;
         memset(&s, 0, sizeof s); s.fam = F_REC; s.r = nr; s.c = nc; s.aux = n1; s.b = r1; s.J = r2; s.dens = place; cb(&s, u);
       }
+    }
+  }
+  if (fams & (1 << F_RECW)) {
+    long cut = __M4RI_PLE_CUTOFF;
+    static const int nrs[] = {1, 7, 40, 64, 65, 130};
+    if (cut <= 20000) for (int a = 0; a < 6; a++) for (int v = 0; v < 7; v++) {
+      int nr = nrs[a]; long words = cut / nr + 2; int nc = (int)(64 * words) - (v % 3 == 1 ? 17 : 0);
+      if (!vx_tier && ((a + v) % 2) && !(v == 0 || v == 5)) continue;
+      memset(&s, 0, sizeof s); s.fam = F_RECW; s.r = nr; s.c = nc; s.dens = v; cb(&s, u);
     }
   }
   if (fams & (1 << F_BND)) {
